@@ -41,34 +41,7 @@ def site(u, f):
     return f"{u}:{f}"
 
 
-class Renamed:
-    """report proxy: rules written for another property report under C20 rule ids"""
-    def __init__(self, rep, mapping):
-        self._rep, self._map = rep, mapping
-
-    def _r(self, rule):
-        for k, v in self._map.items():
-            if rule.startswith(k):
-                return v
-        return "C20.x-" + rule
-
-    def hold(self, rule, *a, **k):
-        return self._rep.hold(self._r(rule), *a, **k)
-
-    def violation(self, rule, *a, **k):
-        return self._rep.violation(self._r(rule), *a, **k)
-
-    def undecided(self, rule, *a, **k):
-        return self._rep.undecided(self._r(rule), *a, **k)
-
-    def check(self, cond, rule, *a, **k):
-        return self._rep.check(cond, self._r(rule), *a, **k)
-
-    def minimum(self, rule, n):
-        return self._rep.minimum(self._r(rule), n)
-
-    def __getattr__(self, name):
-        return getattr(self._rep, name)
+from .shared import Renamed  # noqa: E402
 
 
 # ----------------------------------------------------------------------------- b. string shapes
